@@ -1,8 +1,7 @@
-CONSTANTS MaxH = 6
+CONSTANTS MaxH = 5
  Branches = {"a", "b"}
  StartC = 3
  MaxReorgs = 3
 SPECIFICATION Spec
-INVARIANT NoDataBelowStart
-INVARIANT ClientIsCanonical
+INVARIANT NoBadMessage
 CHECK_DEADLOCK FALSE
